@@ -60,7 +60,7 @@ impl<R> SpMat<R> {
     where R: Scalar + One + Zero {
         self.is_square() && self.iter().all(|(i, j, a)| 
             (i == j && a.is_one()) || (i != j && a.is_zero())
-        )
+        ) && self.iter().filter(|(i, j, _)| i == j).count() == self.nrows()
     }
 
     pub fn is_triang(&self, t: TriangularType) -> bool
